@@ -1128,6 +1128,12 @@ def run(ctx):
                       + [(o, s) for o, s, _, _ in generated] + [(o, b) for o, _, b, _ in generated[:100]] + malformed)
         # ---- the property on whole programs (exercised only)
         seen_sigs = set()
+        past = []
+        for f in sorted((core.VERIF / "corpus" / "c13").glob("*.json")):
+            o = json.loads(f.read_text(encoding="utf-8"))
+            if o.get("kind") == "program":
+                past.append((f"corpus-file:{f.name}", o["source"], None, set()))
+        property_stream(ctx, drv, "property:past-cases", past, seen_sigs)
         property_stream(ctx, drv, "property:hand-picked", [(f"hand:{i}", s, None, set()) for i, s in enumerate(HAND_PICKED)], seen_sigs)
         property_stream(ctx, drv, "property:corpus", [(o, s, None, set()) for o, s in corpus_programs], seen_sigs)
         property_stream(ctx, drv, "property:generated", generated, seen_sigs)
